@@ -82,7 +82,7 @@ def run_program(args):
             json.dump(plan, f)
         try:
             p = subprocess.run([common.PY, os.path.join(common.VERIF, "harness", "grpc_run.py"), r["root"], common.REPO + "/src", pp],
-                               stdout=subprocess.PIPE, stderr=subprocess.PIPE, text=True, timeout=600, env=dict(os.environ, PYTHONDONTWRITEBYTECODE="1"))
+                               stdout=subprocess.PIPE, stderr=subprocess.PIPE, text=True, timeout=3000, env=dict(os.environ, PYTHONDONTWRITEBYTECODE="1"))
             res = json.loads(p.stdout)
         except Exception as ex:
             res = {"import": "runner crashed: " + type(ex).__name__, "calls": []}
